@@ -34,7 +34,7 @@ m = {
     "engines": [{"name": "govc", "path": "/verif/govc", "serves_properties": [c['property_id'] for c in checks],
                  "kind_free_text": "verification-condition generator over go/ssa (naive form) with Gobra-style contracts in /repo/verif_contracts.go and /verif/contracts/*.spec; obligations raced on z3 4.8.12, z3 5.1.0, cvc5"}],
     "checks": checks,
-    "notes": "See DESIGN.md. Exit 0 = all obligations discharged (known findings aside); 1 = VIOLATION; 2 = UNDECIDED (engine error / contract drift), never accompanied by a VIOLATION line.",
+    "notes": "See DESIGN.md. Exit 0 = all obligations discharged (known findings aside); 1 = VIOLATION; 2 = UNDECIDED (engine error / contract drift), never accompanied by a VIOLATION line. Known findings and fixed defects: /verif/known_findings.json (known: one KNOWN-FINDING line each, exit 0; fixed: suppress nothing). Reproductions of the defects on the real code: /verif/replay/defects/.",
     "not_applicable": na,
 }
 json.dump(m, open(os.path.join(V, 'MANIFEST.json'), 'w'), indent=1)
